@@ -156,6 +156,97 @@ class Labeller:
             at = self.node(e)
         return self.ex.expand(e, at, stop=self.mutated | ({self.mapvar} if self.mapvar else set()))
 
+    def expand_acc(self, e: ast.AST, at=None) -> ast.AST:
+        """expand(); a local list that is only filled by one accumulate loop and read after it (`acc = []; for v in X: acc.append(E)`)
+        is replaced by the equivalent comprehension `[E for v in X]` (Expander / facts.accumulated_list)"""
+        if at is None:
+            at = self.node(e)
+        x = self.expand(e, at)
+        if isinstance(x, ast.Name) and x.id in self.mutated and x.id != self.mapvar:
+            y = self.ex.expand(x, at, stop=(self.mutated - {x.id}) | ({self.mapvar} if self.mapvar else set()))
+            if not isinstance(y, ast.Name):
+                return y
+            y = self._block_accumulator(x.id, at)
+            if y is not None:
+                return self.expand(y, at)
+        return x
+
+    def _block_accumulator(self, name: str, at) -> Optional[ast.AST]:
+        """accumulator that lives inside one statement block (typically a loop body, where the engine cannot expand it):
+               name = []                         (same block as the reading statement, before it)
+               for v in X: [if c: [continue]] name.append(E)
+               ... name ...                      (read at `at`, after the loop, same block)
+        and `name` is mentioned nowhere else in the function -> `[E for v in X if c]`"""
+        stmt = getattr(at, 'ast', None)
+        if stmt is None:
+            return None
+        block = None
+        for n in ast.walk(self.f.node):
+            for fld in ('body', 'orelse', 'finalbody'):
+                b = getattr(n, fld, None)
+                if isinstance(b, list) and any(x is stmt for x in b):
+                    block = b
+        if block is None:
+            return None
+        i_use = [i for i, x in enumerate(block) if x is stmt][0]
+        init = loop = None
+        for x in block[:i_use]:
+            tg = x.targets if isinstance(x, ast.Assign) else ([x.target] if isinstance(x, ast.AnnAssign) and x.value is not None else [])
+            if len(tg) == 1 and isinstance(tg[0], ast.Name) and tg[0].id == name:
+                if init is not None or loop is not None:
+                    return None
+                if not (isinstance(x.value, ast.List) and not x.value.elts or match("list()", x.value)):
+                    return None
+                init = x
+            elif isinstance(x, ast.For) and any(isinstance(y, ast.Name) and y.id == name for y in ast.walk(x)):
+                if init is None or loop is not None:
+                    return None
+                loop = x
+            elif any(isinstance(y, ast.Name) and y.id == name for y in ast.walk(x)):
+                return None
+        if init is None or loop is None or loop.orelse or not isinstance(loop.target, ast.Name):
+            return None
+        # every mention of the name: the init, inside the loop exactly one append, and reads after the loop in this block
+        mentions = [y for y in ast.walk(self.f.node) if isinstance(y, ast.Name) and y.id == name]
+        inside = [y for y in ast.walk(loop) if isinstance(y, ast.Name) and y.id == name]
+        after = [y for x in block[i_use:] for y in ast.walk(x) if isinstance(y, ast.Name) and y.id == name]
+        if len(inside) != 1 or len(mentions) != 1 + len(inside) + len(after) or any(not isinstance(y.ctx, ast.Load) for y in after):
+            return None
+        for x in block[i_use:]:
+            for y in ast.walk(x):
+                if isinstance(y, ast.Call) and isinstance(y.func, ast.Attribute) and isinstance(y.func.value, ast.Name) and \
+                        y.func.value.id == name and y.func.attr in MUTATORS:
+                    return None
+        cfg = self.cfg
+        app = None
+        for y in ast.walk(loop):
+            if isinstance(y, ast.Expr) and isinstance(y.value, ast.Call) and match(f"{name}.append($e)", y.value):
+                app = y
+        if app is None:
+            return None
+        an, hn = cfg.node_of(app), cfg.node_of(loop)
+        if an is None or hn is None or [fo for fo in cfg.enclosing_fors(an) if fo is not loop] != list(cfg.enclosing_fors(hn)):
+            return None                      # append sits in a nested loop
+        outer = {(id(t), p) for t, p in cfg.conditions(hn)}
+        ifs = []
+        for t, pol in cfg.conditions(an):
+            if (id(t), pol) in outer:
+                continue
+            ifs.append(t if pol else ast.UnaryOp(op=ast.Not(), operand=t))
+        # locals defined inside the loop body cannot be carried into the comprehension
+        body_defs = {d.var for d in self.flow.defs if d.node is not None and d.stmt is not loop and
+                     any(x is d.stmt for x in ast.walk(loop)) and d.var != loop.target.id}
+        used = {y.id for z in [app.value.args[0]] + ifs for y in ast.walk(z) if isinstance(y, ast.Name)}
+        if body_defs & used:
+            return None
+        import copy as _copy
+        comp = ast.ListComp(elt=_copy.deepcopy(app.value.args[0]),
+                            generators=[ast.comprehension(target=_copy.deepcopy(loop.target), iter=_copy.deepcopy(loop.iter),
+                                                          ifs=[_copy.deepcopy(c) for c in ifs], is_async=0)])
+        ast.copy_location(comp, init)
+        ast.fix_missing_locations(comp)
+        return comp
+
     def label(self, e: ast.AST, at=None, env=None) -> Lab:
         """label of an original (statement level) expression of the function"""
         if at is None:
@@ -180,7 +271,22 @@ class Labeller:
         return t
 
     def is_map(self, e: ast.AST) -> bool:
-        return isinstance(e, ast.Name) and e.id == self.mapvar
+        return isinstance(e, ast.Name) and self.mapvar is not None and (e.id == self.mapvar or e.id in self.map_aliases)
+
+    @property
+    def map_aliases(self) -> set:
+        """locals defined exactly once as `alias = <clone map>` and never mutated through the alias: the same dict"""
+        a = getattr(self, '_aliases', None)
+        if a is None:
+            a = set()
+            if self.mapvar:
+                for d in self.flow.defs:
+                    if d.kind == 'assign' and isinstance(d.value, ast.Name) and d.value.id == self.mapvar and '.' not in d.var \
+                            and d.var != self.mapvar and len(self.flow.defs_of(d.var)) == 1 and d.var not in self.mutated \
+                            and not (d.node is not None and self.cfg.enclosing_loops(d.node)):
+                        a.add(d.var)
+            self._aliases = a
+        return a
 
     # ---------------------------------------------------------------- names
     def _name(self, name: str, at) -> Lab:
@@ -286,7 +392,7 @@ class Labeller:
                 return env[e.id]
             if e.id == self.f.self_name:
                 return Lab('SELF')
-            if self.mapvar and e.id == self.mapvar:
+            if self.mapvar and (e.id == self.mapvar or e.id in self.map_aliases):
                 return Lab('MAP')
             return self._name(e.id, at)
         if isinstance(e, ast.Starred):
@@ -1041,14 +1147,33 @@ def _rels_in_iter(e: ast.AST):
     return None
 
 
+def _map_local(g: Func) -> Optional[str]:
+    """the local of g that is created as the clone map: `m = {<k>: <x>.clone() for ...}` or `m = {}` filled by
+    `m[<k>] = <x>.clone()`; None unless there is exactly one such local"""
+    def has_clone(e):
+        return any(isinstance(x, ast.Call) and isinstance(x.func, ast.Attribute) and x.func.attr == 'clone' for x in ast.walk(e))
+    cands = set()
+    for n in walk_no_nested(g.node):
+        if isinstance(n, (ast.Assign, ast.AnnAssign)) and n.value is not None:
+            tg = n.targets if isinstance(n, ast.Assign) else [n.target]
+            if len(tg) == 1 and isinstance(tg[0], ast.Name) and isinstance(n.value, ast.DictComp) and has_clone(n.value.value):
+                cands.add(tg[0].id)
+            elif len(tg) == 1 and isinstance(tg[0], ast.Subscript) and isinstance(tg[0].value, ast.Name) and has_clone(n.value):
+                cands.add(tg[0].value.id)
+    return cands.pop() if len(cands) == 1 else None
+
+
 class CloneAnalysis:
     """all clauses are evaluated once per program; facts are replayed into whichever obligation asks for them"""
 
     def __init__(self, ctx):
         self.ctx, self.prog = ctx, ctx.prog
         p = ctx.prog
-        self.f = p.func('wbs.WBS.__clone_tasks')
         self.g = p.func('wbs.WBS.__clone')
+        # `merged`: __clone_tasks no longer exists and __clone builds the clone map itself (the method was inlined, or moved to a
+        # module level helper that the normaliser spliced back into __clone): one function plays both roles
+        self.merged = not p.has_func('wbs.WBS.__clone_tasks') and _map_local(self.g) is not None
+        self.f = self.g if self.merged else p.func('wbs.WBS.__clone_tasks')
         self.e_clone = p.func('wbs.WBS.clone')
         self.e_subtree = p.func('wbs.WBS.subtree')
         self.eff = Effects(p, ctx.typer, ctx.cg)
@@ -1057,19 +1182,23 @@ class CloneAnalysis:
         self.clause = None
         # ---- map variable of __clone_tasks = the returned name
         self.mapvar = None
-        rets = [n for n in walk_no_nested(self.f.node) if isinstance(n, ast.Return)]
-        names = {r.value.id for r in rets if isinstance(r.value, ast.Name)}
-        if rets and len(names) == 1 and all(isinstance(r.value, ast.Name) for r in rets):
-            self.mapvar = names.pop()
-        fp = self.f.params
-        self.L = Labeller(ctx, self.f, self.mapvar, {fp[1]: Lab('SRCS', {'ROOTS'})} if len(fp) > 1 else {})
-        # ---- map variable of __clone = the name assigned from self.__clone_tasks(..)
         self.gmap = self.gcall = None
-        for d in flow_of(self.g).defs:
-            if d.kind == 'assign' and d.value is not None and match("self._WBS__clone_tasks($*a)", d.value):
-                self.gmap, self.gcall = d.var, d.value
         gp = self.g.params
-        self.G = Labeller(ctx, self.g, self.gmap, {gp[1]: Lab('SRCS', {'ROOTS'})} if len(gp) > 1 else {})
+        if self.merged:
+            self.mapvar = self.gmap = _map_local(self.g)
+            self.L = self.G = Labeller(ctx, self.g, self.mapvar, {gp[1]: Lab('SRCS', {'ROOTS'})} if len(gp) > 1 else {})
+        else:
+            rets = [n for n in walk_no_nested(self.f.node) if isinstance(n, ast.Return)]
+            names = {r.value.id for r in rets if isinstance(r.value, ast.Name)}
+            if rets and len(names) == 1 and all(isinstance(r.value, ast.Name) for r in rets):
+                self.mapvar = names.pop()
+            fp = self.f.params
+            self.L = Labeller(ctx, self.f, self.mapvar, {fp[1]: Lab('SRCS', {'ROOTS'})} if len(fp) > 1 else {})
+            # ---- map variable of __clone = the name assigned from self.__clone_tasks(..)
+            for d in flow_of(self.g).defs:
+                if d.kind == 'assign' and d.value is not None and match("self._WBS__clone_tasks($*a)", d.value):
+                    self.gmap, self.gcall = d.var, d.value
+            self.G = Labeller(ctx, self.g, self.gmap, {gp[1]: Lab('SRCS', {'ROOTS'})} if len(gp) > 1 else {})
         self.setdefaults: List[tuple] = []          # (function, labeller, call)
         self.helpers: List[tuple] = []              # (helper function, labeller) that receive the clone map
         for name in ('map', 'externals', 'relations', 'assembly', 'wbs_attrs', 'no_source_writes', 'once', 'fields'):
@@ -1197,11 +1326,14 @@ class CloneAnalysis:
     def _uses(self, F: Func, L: Labeller, tree: ast.AST, at, inlined: bool):
         par = _parent_map(tree)
         mv = L.mapvar
+        names = {mv} | L.map_aliases
         for n in (ast.walk(tree) if inlined else walk_no_nested(tree)):
-            if not (isinstance(n, ast.Name) and n.id == mv):
+            if not (isinstance(n, ast.Name) and n.id in names):
                 continue
             p = par.get(id(n))
             where = at if inlined else n
+            if isinstance(p, ast.Assign) and p.value is n and all(isinstance(t, ast.Name) and t.id in L.map_aliases for t in p.targets):
+                continue                                  # alias = map (read-only alias, see Labeller.map_aliases)
             if isinstance(p, ast.Assign) and any(t is n for t in p.targets) or isinstance(p, ast.AnnAssign) and p.target is n:
                 continue
             if isinstance(p, ast.AugAssign) and p.target is n:
@@ -1216,6 +1348,12 @@ class CloneAnalysis:
             if isinstance(p, ast.Subscript) and p.value is n:
                 if isinstance(p.ctx, ast.Load) or p is getattr(self, 'creation', None):
                     continue
+                st = par.get(id(p))
+                if isinstance(p.ctx, ast.Store) and isinstance(st, ast.Assign) and len(st.targets) == 1 and not inlined and \
+                        (F is self.f or any(F is h for h, _ in self.helpers)) and self._absent_guard(L, st, p.slice):
+                    # `if K not in map: map[K] = V` inserts exactly when setdefault(K, V) would: judged by the 'externals' clause
+                    self.setdefaults.append((F, L, st, p.slice, st.value))
+                    continue
                 self.refute(F, where, par.get(id(p), p), f"plain {'assignment to' if isinstance(p.ctx, ast.Store) else 'deletion of'} "
                                                          f"`{src(p)}`: a copy in the clone map can be overwritten / removed; outside "
                                                          f"tasks may only enter through setdefault(x.id, x)")
@@ -1228,8 +1366,10 @@ class CloneAnalysis:
                     if p.attr == 'setdefault':
                         if inlined or not (F is self.f or any(F is h for h, _ in self.helpers)):
                             self.undecided(F, where, gp, "setdefault on the clone map outside __clone_tasks / inside a helper")
+                        elif len(gp.args) != 2 or gp.keywords:
+                            self.undecided(F, where, gp, "setdefault with an unexpected argument list")
                         else:
-                            self.setdefaults.append((F, L, gp))
+                            self.setdefaults.append((F, L, gp, gp.args[0], gp.args[1]))
                         continue
                     if p.attr in MAP_DESTRUCTIVE:
                         self.refute(F, where, gp, f"`{src(gp)[:80]}` can overwrite or remove the copy of a selected task in the clone "
@@ -1296,6 +1436,21 @@ class CloneAnalysis:
         self._uses(h, hl, h.node, None, False)
         return True
 
+    def _absent_guard(self, L: Labeller, st: ast.stmt, key: ast.AST) -> bool:
+        """the statement runs only under `<key> not in <clone map>` (for the same key expression)"""
+        cn = L.cfg.node_of(st)
+        if cn is None:
+            return False
+        k = L.expand(key, cn)
+        for atom, pol in self._atoms(L, cn):
+            m = match("$k not in $m", atom) if pol else match("$k in $m", atom)
+            if m and L.is_map(m['m']) and same(m['k'], k):
+                return True
+            m = match("$m.get($k) is None", atom) if pol else match("$m.get($k) is not None", atom)
+            if m and L.is_map(m['m']) and same(m['k'], k):
+                return True
+        return False
+
     def _ext_test(self, atom: ast.AST, pol: bool, v: ast.AST, sn: Optional[str]) -> Optional[str]:
         for pat, ne in (("$a != $b", True), ("$a is not $b", True), ("$a == $b", False), ("$a is $b", False)):
             m = match(pat, atom)
@@ -1319,12 +1474,9 @@ class CloneAnalysis:
         self._uses(self.f, self.L, self.f.node, None, False)
         covered = {}
         unknown_cov = False
-        for f, L, call in self.setdefaults:
+        for f, L, call, karg, varg in self.setdefaults:
             cn = L.node(call)
-            if len(call.args) != 2 or call.keywords:
-                self.undecided(f, call, call, "setdefault with an unexpected argument list")
-                continue
-            k, v = L.expand(call.args[0], cn), L.expand(call.args[1], cn)
+            k, v = L.expand(karg, cn), L.expand(varg, cn)
             mk = match("$x.id", k)
             vl = L.lab(v, cn, {})
             if vl.kind in ('SRC', 'SELF', 'SRCS', 'MEMBERS', 'SRCMAP'):
@@ -1427,6 +1579,69 @@ class CloneAnalysis:
             return m['k'], False
         return None
 
+    # ---- statement-level guards of a relation store: propositional formulas over "the source task's relation R is non-empty"
+    def _rel_prop(self, L: Labeller, e: ast.AST, origin, cn):
+        """e as a function {relation name: bool} -> bool, or None when e is not built from not/and/or over emptiness tests
+        (`S.R`, `len(S.R) > 0`, `len(S.R) == 0`, `S.parent is [not] None`, `bool(S.R)`, `S.R != []`) of relations of the source
+        task S the copy belongs to"""
+        if isinstance(e, ast.UnaryOp) and isinstance(e.op, ast.Not):
+            f = self._rel_prop(L, e.operand, origin, cn)
+            return None if f is None else (lambda env, f=f: not f(env))
+        if isinstance(e, ast.BoolOp):
+            fs = [self._rel_prop(L, v, origin, cn) for v in e.values]
+            if any(f is None for f in fs):
+                return None
+            if isinstance(e.op, ast.And):
+                return lambda env, fs=fs: all(f(env) for f in fs)
+            return lambda env, fs=fs: any(f(env) for f in fs)
+
+        def var(x):
+            x, bad = strip_seq_wrappers(x)
+            if isinstance(x, ast.Attribute) and x.attr in ALL_RELS:
+                sl = L.lab(x.value, cn, {})
+                if sl.kind == 'SRC' and sl.origin is not None and sl.origin == origin:
+                    return x.attr
+            return None
+        for pat, positive in (("len($x) > 0", True), ("len($x) != 0", True), ("len($x) >= 1", True), ("0 < len($x)", True),
+                              ("bool($x)", True), ("$x != []", True), ("len($x)", True),
+                              ("len($x) == 0", False), ("len($x) < 1", False), ("$x == []", False), ("0 == len($x)", False),
+                              ("$x is not None", True), ("$x is None", False)):
+            m = match(pat, e)
+            if m:
+                r = var(m['x'])
+                if r is None or (pat.startswith('$x is') and r != 'parent') or (r == 'parent' and 'len' in pat):
+                    return None
+                return (lambda env, r=r: env[r]) if positive else (lambda env, r=r: not env[r])
+        r = var(e)
+        if r is not None:
+            return lambda env, r=r: env[r]
+        return None
+
+    def _skip_verdict(self, L: Labeller, atoms, rel: str, origin, cn):
+        """the store of relation `rel` runs under the path condition `atoms`.  -> (verdict, implies_nonempty, witness) with verdict
+        'none' (unconditional) | 'benign' (skipped only when the source's `rel` is empty / None: a fresh copy already has that
+        value) | 'bad' (skipped for some source task whose `rel` is non-empty; witness says which) | 'unknown'"""
+        if not atoms:
+            return 'none', False, None
+        fs = []
+        for atom, pol in atoms:
+            f = self._rel_prop(L, atom, origin, cn)
+            if f is None:
+                return 'unknown', False, None
+            fs.append((f, pol))
+        import itertools
+        witness, implies = None, True
+        for bits in itertools.product((False, True), repeat=len(ALL_RELS)):
+            env = dict(zip(ALL_RELS, bits))
+            run = all(f(env) == pol for f, pol in fs)
+            if run and not env[rel]:
+                implies = False
+            if not run and env[rel] and (witness is None or sum(bits) < sum(witness.values())):
+                witness = env
+        if witness is not None:
+            return 'bad', implies, witness
+        return 'benign', implies, None
+
     def _relations(self):
         if not self._need_map():
             return
@@ -1456,20 +1671,30 @@ class CloneAnalysis:
             if bad:
                 self.refute(f, st, tgt, f"`{rel}` is rebuilt only for part of the copies: {bad}", 'relations')
                 continue
-            rhs = L.expand(st.value, cn)
+            rhs = L.expand_acc(st.value, cn)
             stmt_atoms = self._atoms(L, cn)
+            skip, implies, witness = self._skip_verdict(L, stmt_atoms, rel, rl.origin, cn)
+            if skip == 'bad':
+                rest = [r for r in ALL_RELS if r != rel]
+                case = ', '.join(('' if witness[r] else 'no ') + r for r in rest)
+                self.refute(f, st, st, f"`{src(tgt)}` is assigned only when `{' and '.join(self.text(a) if p else 'not (' + self.text(a) + ')' for a, p in stmt_atoms)[:120]}`: "
+                                       f"for a source task with {'a parent' if rel == 'parent' else rel} and {case} the `{rel}` of its copy is never "
+                                       f"assigned, it is left to the mirror updates of other assignments ("
+                                       + ("links to tasks outside the source WBS are lost" if rel in DEP_RELS else
+                                          "the order of siblings then differs from the source's") +
+                                       "); every copy must get all four relations from its source task", 'relations')
             if rel == 'parent':
-                ok = self._parent_rhs(st, tgt, rhs, cn, rl.origin, stmt_atoms)
-                if ok == 'none-only':
+                ok = self._parent_rhs(st, tgt, rhs, cn, rl.origin, stmt_atoms, skip in ('benign', 'bad'), implies)
+                if ok == 'none-only' and skip != 'bad':
                     parent_none_only.append(st)
                     continue
             else:
                 ok = self._list_rhs(st, tgt, rel, rhs, cn, rl.origin)
-                if ok and stmt_atoms:
+                if ok and stmt_atoms and skip not in ('benign', 'bad'):
                     self.undecided(f, st, st, f"`{rel}` is rebuilt only under a condition the rule does not interpret "
                                               f"(`{' and '.join(facts.cond_texts(stmt_atoms))[:80]}`)", 'relations')
                     ok = False
-            if ok:
+            if ok and skip != 'bad':
                 good.setdefault(rel, st)
         if parent_none_only and 'parent' not in good:
             self.refute(f, parent_none_only[0], parent_none_only[0], "the parent of every copy is set to None: the hierarchy is not "
@@ -1488,7 +1713,7 @@ class CloneAnalysis:
                                                               f"through the mirror update of the other side and the sibling order depends "
                                                               f"on the traversal order - not decided", 'relations')
 
-    def _parent_rhs(self, st, tgt, rhs, cn, origin, stmt_atoms) -> bool:
+    def _parent_rhs(self, st, tgt, rhs, cn, origin, stmt_atoms, guard_benign=False, guard_implies_parent=False) -> bool:
         """`<copy>.parent = <rhs>`; provenance findings go to 'receivers', faithfulness findings to 'relations'"""
         f, L = self.f, self.L
         sh = L.short
@@ -1540,8 +1765,13 @@ class CloneAnalysis:
             par_expr = key.value
             nonnull = in_map = False
             bad_here = False
+            guard_ids = {id(a) for a, _ in stmt_atoms} if guard_benign else set()
+            if guard_benign and guard_implies_parent:
+                nonnull = True              # the statement only runs for source tasks that have a parent (_skip_verdict)
             for atom, pol in conds:
                 txt = f"`{'' if pol else 'not '}{sh(atom)[:60]}`"
+                if id(atom) in guard_ids and not same(atom, par_expr) and not match("$p is not None", atom) and not match("$p is None", atom):
+                    continue                # emptiness tests of the source task's relations, judged as a whole by _skip_verdict
                 if same(atom, par_expr):
                     if pol:
                         nonnull = True
@@ -1665,14 +1895,19 @@ class CloneAnalysis:
     # ---------------------------------------------------------------- (e) assembly of the new WBS
     def _assembly(self):
         g, G = self.g, self.G
-        if self.gmap is None or self.gcall is None:
-            self.undecided(g, g.node, '__clone', "__clone does not bind the result of self.__clone_tasks(..) to a local name")
-            return
         roots_p = g.params[1] if len(g.params) > 1 else None
-        a = self.gcall.args
-        if len(a) != 1 or not (isinstance(a[0], ast.Name) and a[0].id == roots_p):
-            self.undecided(g, self.gcall, self.gcall, "__clone_tasks is not called with the roots given to __clone")
-            return
+        if self.merged:
+            if len(G.flow.defs_of(roots_p)) != 1:
+                self.undecided(g, g.node, '__clone', "__clone rebinds its roots parameter")
+                return
+        else:
+            if self.gmap is None or self.gcall is None:
+                self.undecided(g, g.node, '__clone', "__clone does not bind the result of self.__clone_tasks(..) to a local name")
+                return
+            a = self.gcall.args
+            if len(a) != 1 or not (isinstance(a[0], ast.Name) and a[0].id == roots_p):
+                self.undecided(g, self.gcall, self.gcall, "__clone_tasks is not called with the roots given to __clone")
+                return
         ctors = [n for n in walk_no_nested(g.node) if isinstance(n, ast.Call) and isinstance(n.func, ast.Name) and n.func.id == 'WBS']
         for c in ctors:
             if c.args or c.keywords:
@@ -1700,7 +1935,7 @@ class CloneAnalysis:
             if G.cfg.conditions(cn):
                 self.undecided(g, st, st, "roots of the new WBS are attached only under a condition")
                 continue
-            rhs = G.expand(st.value, cn)
+            rhs = G.expand_acc(st.value, cn)
             comp, bad = strip_seq_wrappers(rhs)
             if bad:
                 self.refute(g, st, st.value, f"the roots of the copy are passed through {'/'.join(bad)}(): root order of the source is lost")
@@ -1754,7 +1989,8 @@ class CloneAnalysis:
                     self.site(g, r, "returns the assembled WBS")
                 else:
                     self.undecided(g, r, r, "__clone returns something other than the WBS whose roots were attached")
-        self._uses(g, G, g.node, None, False)
+        if not self.merged:
+            self._uses(g, G, g.node, None, False)          # merged: already enumerated by the 'externals' clause
 
     # ---------------------------------------------------------------- (e) public attributes of the WBS
     def _wbs_attrs(self):
@@ -1807,8 +2043,11 @@ class CloneAnalysis:
     # ---------------------------------------------------------------- (f) no store / mutation through a source object
     def _no_source_writes(self):
         chain = {self.f.qual, self.g.qual}
-        for F, L in [(self.f, self.L), (self.g, self.G), (self.e_clone, Labeller(self.ctx, self.e_clone)),
-                     (self.e_subtree, Labeller(self.ctx, self.e_subtree, None, {}))] + list(self.helpers):
+        if self.merged:
+            self.site(self.g, self.g.node, "__clone_tasks is folded into __clone: one function carries both roles")
+        for F, L in ([] if self.merged else [(self.f, self.L)]) + [
+                (self.g, self.G), (self.e_clone, Labeller(self.ctx, self.e_clone)),
+                (self.e_subtree, Labeller(self.ctx, self.e_subtree, None, {}))] + list(self.helpers):
             n_ok = 0
             for w in self.eff.direct_writes(F):
                 if w.root == 'fresh':
@@ -1898,7 +2137,7 @@ class CloneAnalysis:
     def _once(self):
         f, g = self.f, self.g
         clones = []
-        for F in (f, g, self.e_clone, self.e_subtree):
+        for F in ((g,) if self.merged else (f, g)) + (self.e_clone, self.e_subtree):
             for c in facts.calls_named(F, 'clone'):
                 if isinstance(c.func, ast.Attribute):
                     clones.append((F, c))
@@ -1925,7 +2164,13 @@ class CloneAnalysis:
         elif mapdef is not None:
             self.undecided(f, mapdef.stmt, mapdef.stmt, "clone() is not called exactly once inside the clone-map comprehension")
         calls = facts.calls_named(g, '__clone_tasks')
-        if len(calls) == 1 and not self.G.cfg.conditions(self.G.node(calls[0])):
+        if self.merged:
+            mn = mapdef.node if mapdef is not None else None
+            if mn is not None and not self.G.cfg.conditions(mn) and not self.G.cfg.enclosing_loops(mn):
+                self.site(g, mapdef.stmt, "the clone map is built once, inside __clone itself")
+            else:
+                self.undecided(g, g.node, '__clone', "the clone map is created conditionally / inside a loop in __clone")
+        elif len(calls) == 1 and not self.G.cfg.conditions(self.G.node(calls[0])):
             self.site(g, calls[0], "__clone_tasks called once")
         else:
             self.undecided(g, g.node, '__clone', f"__clone_tasks is called {len(calls)} times / conditionally in __clone")
@@ -1952,15 +2197,114 @@ class CloneAnalysis:
                     self.undecided(E, calls[0], calls[0], "clone() does not pass self.roots to __clone")
             else:
                 p = E.params[1] if len(E.params) > 1 else None
-                inner, bad = strip_seq_wrappers(arg)
-                m = match("_to_list($r)", inner)
-                inner = m['r'] if m else inner
-                if isinstance(inner, ast.Name) and inner.id == p and not bad:
-                    self.site(E, calls[0], "subtree(roots) = __clone(_to_list(roots))")
-                elif bad:
+                cn = cfg_of(E).node_containing(calls[0])
+                given, state, bad = self._given_roots(E, arg, p, cn, 0)
+                if bad:
                     self.refute(E, calls[0], calls[0], f"subtree() reorders / deduplicates the given roots with {'/'.join(bad)}()")
-                else:
+                elif not given:
                     self.undecided(E, calls[0], calls[0], "subtree() does not pass exactly the given roots to __clone")
+                elif state == 'yes':
+                    self.site(E, calls[0], "subtree(roots) = __clone(_to_list(roots))")
+                else:
+                    self._raw_roots(E, calls[0], p)
+
+    def _given_roots(self, E: Func, e: ast.AST, p: str, cn, depth: int):
+        """e (argument subtree() hands to __clone, expanded) -> (is exactly the given roots, 'yes' materialised into a list /
+        'raw' the caller's object itself on some path, order destroying wrappers)"""
+        if depth > 6:
+            return False, 'raw', []
+        # one-shot views of the given roots: iter(X), (t for t in X), filter(None, X), map(f, X)
+        one_shot = None
+        if isinstance(e, ast.Call) and isinstance(e.func, ast.Name) and e.func.id == 'iter' and len(e.args) == 1:
+            one_shot = e.args[0]
+        elif isinstance(e, ast.Call) and isinstance(e.func, ast.Name) and e.func.id == 'filter' and len(e.args) == 2 and \
+                isinstance(e.args[0], ast.Constant) and e.args[0].value is None:
+            one_shot = e.args[1]
+        elif isinstance(e, ast.GeneratorExp) and len(e.generators) == 1 and isinstance(e.generators[0].target, ast.Name) and \
+                isinstance(e.elt, ast.Name) and e.elt.id == e.generators[0].target.id and \
+                all(match(f"{e.elt.id} is not None", c) for c in e.generators[0].ifs):
+            one_shot = e.generators[0].iter
+        if one_shot is not None:
+            g, _, b = self._given_roots(E, one_shot, p, cn, depth + 1)
+            return g, 'raw', b
+        inner, bad = strip_seq_wrappers(e)
+        wrapped = inner is not e
+        if isinstance(inner, ast.Name) and inner.id == p:
+            if wrapped:
+                return True, 'yes', bad
+            # which definitions of the parameter reach the call
+            flow = flow_of(E)
+            ds = flow.reaching(p, cn) if cn is not None else []
+            if not ds:
+                return False, 'raw', bad
+            state = 'yes'
+            for d in ds:
+                if d.kind == 'param':
+                    state = 'raw'
+                elif d.kind == 'assign' and d.value is not None and d.node is not None:
+                    g, st, b = self._given_roots(E, d.value, p, d.node, depth + 1)
+                    bad = bad + b
+                    if not g:
+                        return False, 'raw', bad
+                    if st != 'yes':
+                        state = 'raw'
+                else:
+                    return False, 'raw', bad
+            return True, state, bad
+        m = match("_to_list($r)", inner)
+        if m:
+            g, _, b = self._given_roots(E, m['r'], p, cn, depth + 1)
+            return g, 'yes', bad + b
+        if isinstance(inner, (ast.List, ast.Tuple)) and len(inner.elts) == 1:
+            x = inner.elts[0]
+            if isinstance(x, ast.Starred):
+                g, _, b = self._given_roots(E, x.value, p, cn, depth + 1)
+                return g, 'yes', bad + b
+            return isinstance(x, ast.Name) and x.id == p, 'yes', bad        # [roots]: a single task wrapped
+        if isinstance(inner, ast.ListComp) and len(inner.generators) == 1 and isinstance(inner.generators[0].target, ast.Name) and \
+                isinstance(inner.elt, ast.Name) and inner.elt.id == inner.generators[0].target.id:
+            v = inner.elt.id
+            if all(match(f"{v} is not None", c) for c in inner.generators[0].ifs):
+                g, _, b = self._given_roots(E, inner.generators[0].iter, p, cn, depth + 1)
+                return g, 'yes', bad + b
+            return False, 'yes', bad
+        if isinstance(inner, ast.IfExp):
+            a = self._given_roots(E, inner.body, p, cn, depth + 1)
+            b = self._given_roots(E, inner.orelse, p, cn, depth + 1)
+            return a[0] and b[0], 'yes' if a[1] == b[1] == 'yes' else 'raw', bad + a[2] + b[2]
+        return False, 'raw', bad
+
+    def _raw_roots(self, E: Func, call: ast.Call, p: str):
+        """subtree() forwards the caller's `roots` object itself: fine only if __clone materialises it before traversing it"""
+        g = self.g
+        rp = g.params[1] if len(g.params) > 1 else None
+        flow = flow_of(g)
+        loads = [n for n in ast.walk(g.node) if isinstance(n, ast.Name) and n.id == rp and isinstance(n.ctx, ast.Load)]
+        ds = flow.defs_of(rp) if rp else []
+        if rp is None:
+            self.undecided(E, call, call, "subtree() passes its argument on unmaterialised and __clone has no roots parameter")
+        elif len(ds) == 1:
+            if len(loads) >= 2:
+                self.refute(E, call, call, f"subtree() hands the caller's `{p}` object (or an iterator over it) to __clone unmaterialised "
+                                           f"(no _to_list / list()), and __clone "
+                                           f"traverses `{rp}` {len(loads)} times (the clone map, then the roots of the new WBS): a one-shot "
+                                           f"iterable (generator, filter/map object, iterator) is exhausted by the first pass, so the copy "
+                                           f"silently gets no roots; expected `__clone(_to_list({p}))`")
+            else:
+                self.undecided(E, call, call, "subtree() passes its argument on unmaterialised; cannot see how often __clone traverses it")
+        else:
+            cfg = cfg_of(g)
+            mats = [d for d in ds if d.kind == 'assign' and d.value is not None and d.node is not None and not cfg.conditions(d.node)
+                    and not cfg.enclosing_loops(d.node) and
+                    (match(f"_to_list({rp})", d.value) or match(f"list({rp})", d.value) or match(f"tuple({rp})", d.value)
+                     or match(f"[*{rp}]", d.value))]
+            other = [n for n in loads if not any(any(x is n for x in ast.walk(d.value)) for d in mats)]
+            if len(mats) == 1 and len(ds) == 2 and all(
+                    cfg.node_containing(n) is not None and flow.unique_def(rp, cfg.node_containing(n)) is mats[0] for n in other):
+                self.site(E, call, f"subtree(roots) = __clone(roots); __clone materialises it first (`{src(mats[0].stmt)}`)")
+            else:
+                self.undecided(E, call, call, "subtree() passes its argument on unmaterialised and __clone rebinds its roots parameter "
+                                              "in a way the rule does not follow")
 
 
 class _Recorder:
